@@ -466,6 +466,12 @@ class Interp:
         if st.level:
             raise Unsupported("relative import")
         for a in st.names:
+            if a.name == "*":
+                m = self.load_module(st.module)
+                for k, v in m.attrs.items():
+                    if not k.startswith("_"):
+                        env.vars[k] = v
+                continue
             env.vars[a.asname or a.name] = LazyAttr(self, st.module, a.name)
 
     def st_FunctionDef(self, st, env, mod):
@@ -986,7 +992,8 @@ class Interp:
         return PList(out)
 
     def ex_GeneratorExp(self, e, env, mod):
-        return self.ex_ListComp(e, env, mod)
+        r = self.ex_ListComp(e, env, mod)
+        return GenResult(r.elems) if type(r) is PList else r
 
     def ex_SetComp(self, e, env, mod):
         s = PSet()
